@@ -61,6 +61,10 @@ def extra_cases(tier, seed, shard, nshards):
              "gaps": [round(rng.choice([0.0, 0.05, 0.3]), 2) for _ in ops]}
         if i % nshards == shard:
             yield c
+    # the surplus worker is busy with a request that never ends when it is asked to stop
+    for j, kind in enumerate(["sync", "gthread", "gevent", "eventlet"]):
+        if (j + n + 3) % nshards == shard:
+            yield {"engine": "Rbusy", "kind": kind}
     # a worker that cannot boot: every site at which booting can fail x worker class (x "only after a reload")
     cells = [(site, late) for site in BOOT_FAILURES for late in (False, True)]
     for j, (site, late) in enumerate(cells):
@@ -79,6 +83,55 @@ BOOT_FAILURES = {
     "post_fork-raises": (["def post_fork(server, worker):", "    raise RuntimeError('post_fork fails')"], {}, "rapp:app", 3),
     "post_worker_init-raises": (["def post_worker_init(worker):", "    raise RuntimeError('post_worker_init fails')"], {}, "rapp:app", 3),
 }
+
+
+def run_busy_retire(case):
+    """engine R: TTIN then TTOU while the oldest worker is inside a request that never finishes: the pool must still come down to the
+    requested size (the worker's own graceful timeout, or at the latest the arbiter's timeout scan, ends it)"""
+    import signal as sg
+    import time
+    from vlib import renv
+    kind = case["kind"]
+    G, T = 2, 4
+    srv = renv.Server(kind=kind, workers=None, bind="unix", graceful=G, timeout=T, threads=2 if kind == "gthread" else None,
+                      conf_lines=["workers = 1"])
+    vio = []
+    classes = ["engine:Rbusy", "kind:" + kind]
+    c = None
+    try:
+        if not srv.wait_ready():
+            return Outcome([], False, classes + ["inconclusive:not-ready"])
+        first = srv.workers()
+        c = srv.connect()
+        c.sendall(b"GET /hang/b1 HTTP/1.1\r\nHost: x\r\n\r\n")
+        if not srv.started("b1"):
+            return Outcome([], False, classes + ["inconclusive:request-not-started"])
+        srv.signal(sg.SIGTTIN)
+        t0 = time.time()
+        while time.time() - t0 < 10 and len(srv.workers()) < 2:
+            time.sleep(0.05)
+        srv.signal(sg.SIGTTOU)
+        bound = G + T + 8
+        t0 = time.time()
+        while time.time() - t0 < bound:
+            ws = srv.workers()
+            if len(ws) == 1 and ws[0] not in first:
+                break
+            time.sleep(0.1)
+        ws = srv.workers()
+        if not (len(ws) == 1 and ws[0] not in first):
+            vio.append(Violation("converges-to-target", "C03/real:busy-surplus-worker-never-leaves:" + kind,
+                                 observed={"children": ws, "busy_worker": first, "waited_s": bound, "log_tail": srv.logtext()[-800:]},
+                                 expected="one worker, the new one"))
+        else:
+            r, data, err = srv.request("/pid", timeout=5)
+            if r is None or not (r.ok and r.status == 200):
+                vio.append(Violation("keeps-serving", "C03/real:not-serving-after-history", observed={"error": err, "case": case}, expected="200"))
+        return Outcome(vio, True, classes, key="Rbusy|" + kind, sample={"case": case, "final": ws})
+    finally:
+        if c is not None:
+            c.close()
+        srv.cleanup()
 
 
 def run_boot_failure(case):
@@ -195,6 +248,8 @@ def run_case(case):
         return run_real(case)
     if case.get("engine") == "Rboot":
         return run_boot_failure(case)
+    if case.get("engine") == "Rbusy":
+        return run_busy_retire(case)
     k = ksim.Kernel(case["sched"], case["events"], quiesce_steps=case["timeout"] + 8)
     k.pid_wrap = case.get("pid_wrap")
     out = ksim.run_arbiter(k, {"workers": case["workers"], "timeout": case["timeout"], "graceful_timeout": 3})
